@@ -10,7 +10,7 @@ from ..entries import derive_scratch, setters, stored_attrs
 from ..index import AnalysisError, FuncInfo
 from ..interp import Interp
 from ..report import Result
-from ..values import dim_collapse, dim_known
+from ..values import TOP, dim_collapse, dim_known
 
 EXPLANATION = (
     "Per (concrete class x property setter), calls inlined through the MRO: "
@@ -74,7 +74,10 @@ def _check_size_setter(res, index, cls, name, fn, scratch):
     g = Guard("value")
     g.scratch = scratch
     it = Interp(index, [g])
-    r = it.run_entry(fn, cls)
+    gsym, gdim = _getter_info(index, cls, name)
+    pname = fn.params[1] if len(fn.params) > 1 else "value"
+    g.param = pname
+    r = it.run_entry(fn, cls, param_dims={pname: (gdim if gdim is not None else TOP, "float")})
     res.evaluations += it.stats["stmts"]
     res.unmodelled |= it.unmodelled
     label = f"{cls.name}.{name}"
@@ -117,11 +120,10 @@ def _check_size_setter(res, index, cls, name, fn, scratch):
     # ------------------------------------------------------------ setter o getter
     if not writes:
         return
-    gsym, gdim = _getter_info(index, cls, name)
     if gsym is None:
         res.not_in_fragment.append(f"SET {label}: getter has no normal return")
         return
-    value = Poly.atom("param.value")
+    value = Poly.atom(f"param.{pname}")
     rescales = [e for e in r["events"] if e.type == "enter" and not e.entry and e.callee.name == "_rescale"
                 and len(e.path) >= 2 and e.selfobj is not None and e.selfobj.oid == "self"]
     # candidates for G inside this run (atoms of fresh objects are run-specific)
@@ -133,26 +135,21 @@ def _check_size_setter(res, index, cls, name, fn, scratch):
             cands.append(s)
     closed = gsym.atoms() <= {a for a in gsym.atoms() if a.startswith("self._") or a in ("pi", "phi") or a.startswith("#")}
     if closed and not any(a.startswith("getter<") for a in gsym.atoms()):
-        # SET-2: substitute the symbolic final store into the getter
+        # SET-2: substitute the symbolic final store (entry-time atoms) into the getter
         store = {}
         ok_store = True
-        for e in writes:
-            oid, attr = e.loc
-            atom = f"{oid}.{attr}"
-            if atom not in gsym.atoms():
+        finals = [st_.comp.get("__symstore", {}) for (_v, st_, _n) in r["returns"]]
+        for atom in sorted(gsym.atoms()):
+            if not atom.startswith("self."):
                 continue
-            new = e.result.sym if (e.result is not None and e.mode == "rebind") else None
-            if e.mode == "rebind" and e.op != "set" and e.f.get("aug") is not None:
-                new = e.result.sym
-            if new is None:
+            oid, attr = atom.rsplit(".", 1)
+            vals = [f.get((oid, attr), "entry") for f in finals]
+            if all(isinstance(v, str) for v in vals):
+                continue  # never written
+            if any(v is None or isinstance(v, str) for v in vals) or any(v != vals[0] for v in vals):
                 ok_store = False
                 break
-            # sequential composition: later writes see earlier ones
-            new2 = new.subs(store) if store else new
-            if new2 is None:
-                ok_store = False
-                break
-            store[atom] = new2
+            store[atom] = vals[0]
         if ok_store and store:
             comp = gsym.subs(store)
             if comp is not None and comp == value:
